@@ -92,15 +92,24 @@ def _prepare(trace):
         victim.description = "victim"
     elif early is not None:
         victim = early
+    elif trace["victim"].get("api"):
+        # the change is made through the resource helper API (File.write, Resource.move, ...)
+        victim = _ApiVictim(trace["victim"]["ops"][0])
     else:
         victim = realize.realize(ctx.project, trace["victim"])
     ok = True
     if mode in ("undo", "redo", "undo_sel", "redo_sel"):
         ctx.clock.advance(1_000_000_000)
         try:
-            ctx.project.do(victim)
+            if isinstance(victim, _ApiVictim):
+                victim(ctx.project)
+            else:
+                ctx.project.do(victim)
             if mode == "redo":
                 ctx.project.history.undo()
+                if trace.get("between"):
+                    # another change is made while the victim waits on the redo list
+                    ctx.project.do(realize.realize(ctx.project, trace["between"]))
             elif mode == "redo_sel":
                 # several change sets go to the redo list; the faulted call redoes some of them
                 h = ctx.project.history
@@ -109,6 +118,16 @@ def _prepare(trace):
             ok = False
     ctx.clock.advance(1_000_000_000)
     return ctx, victim, ok
+
+
+class _ApiVictim:
+    def __init__(self, op):
+        self.op = op
+
+    def __call__(self, project):
+        from ..world import api_call
+
+        api_call(project, self.op, precheck=False)
 
 
 def _act(ctx, victim, mode, fault):
@@ -129,7 +148,9 @@ def _act(ctx, victim, mode, fault):
     try:
         h = ctx.project.history
         kw = {"task_handle": th} if th is not None else {}
-        if mode == "do":
+        if mode == "do" and isinstance(victim, _ApiVictim):
+            victim(ctx.project)  # (the helper API takes no task handle)
+        elif mode == "do":
             ctx.project.do(victim, **kw)
         elif mode == "undo":
             h.undo(**kw)
@@ -245,6 +266,18 @@ class AtomicEngine(Engine):
                 "mode": rng.choice(["do", "do", "undo", "redo"]), "faults": "all", "swarm": swarm,
             }
         init = gen.gen_tree(rng, swarm)
+        if rng.random() < 0.06:
+            # an ignored file is edited together with ordinary ones; while that change waits on the
+            # redo list the ignored file alone is edited again; then redo is asked for (refused:
+            # the redo list was cleared; were it not, a failing redo would roll the later edit away)
+            init = [e for e in init if e["p"] != "keep.txt~"] + [{"p": "keep.txt~", "text": "one\n", "nl": "lf", "enc": "utf-8", "cls": None, "cookie": None}]
+            tree = gen.tree_model_of(init)
+            classes = gen.file_classes(init)
+            victim, _ = gen.gen_changeset(rng, tree, classes, dict(swarm, removals=False, nest_p=0.0), 1)
+            victim["desc"] = "victim"
+            victim["ops"].insert(rng.randint(0, len(victim["ops"])), ["edit", "keep.txt~", "two\n"])
+            return {"init": init, "prelude": [], "victim": victim, "mode": "redo", "faults": "all", "swarm": swarm, "sel": 0,
+                    "preview_early": False, "between": {"id": 2, "desc": "between", "ops": [["edit", "keep.txt~", "three\n"]]}}
         tree = gen.tree_model_of(init)
         classes = gen.file_classes(init)
         prelude = []
@@ -269,6 +302,13 @@ class AtomicEngine(Engine):
         allow_bad = mode == "do" and rng.random() < swarm["natural_fail_p"]
         victim, _after = gen.gen_changeset(rng, tree, classes, swarm, 1, allow_bad=allow_bad)
         victim["desc"] = "victim"
+        if mode in ("do", "undo", "redo") and rng.random() < 0.12:
+            flat = [o for o in flat_ops(victim["ops"]) if o[0] in ("edit", "mkdir", "mkfile", "move", "remove")]
+            try:
+                tree.copy().apply(flat[0])
+                victim = {"id": 1, "desc": "victim", "ops": [flat[0]], "api": True}
+            except Exception:
+                pass
         return {
             "init": init,
             "prelude": prelude,
@@ -340,6 +380,12 @@ class AtomicEngine(Engine):
 
         if trace["faults"] == "all":
             faults = enumerate_faults(n_mut, n_read, n_notif, writes, swarm)
+            if trace["victim"].get("api") and mode == "do" and shape == ["edit"]:
+                # File.write first reads the file to see whether anything changes and documents
+                # that a failure of that read is ignored; it is not part of performing the change
+                faults = [f for f in faults if not (f["kind"] == "read" and f["k"] == 1)]
+            if trace["victim"].get("api") and mode == "do":
+                faults = [f for f in faults if f["kind"] != "stop"]
         else:
             faults = trace["faults"]
 
